@@ -8,7 +8,8 @@ Anything that does not have the expected literal shape is a TranslationError (ha
 like a broken bridge)."""
 from __future__ import annotations
 import ast
-from typing import Dict, List, Tuple
+import copy
+from typing import Dict, List, Optional, Tuple
 from .py2lean import TranslationError, find_class, find_func, lean_str, lean_list
 from .common import parse, HEADER
 
@@ -127,60 +128,280 @@ def type_value_map(node) -> List[Tuple[str, str, str]]:
 
 # ---- q --------------------------------------------------------------------------------------
 
+class _Subst(ast.NodeTransformer):
+    def __init__(self, env):
+        self.env = env
+
+    def visit_Name(self, node):
+        if isinstance(node.ctx, ast.Load) and node.id in self.env:
+            return copy.deepcopy(self.env[node.id])
+        return node
+
+
+def subst(node, env):
+    """`node` with the locals of `env` (name -> expression bound once, before use) replaced by what they stand for"""
+    return _Subst(env).visit(copy.deepcopy(node)) if env else node
+
+
+def _is_doc(st) -> bool:
+    return isinstance(st, ast.Pass) or (isinstance(st, ast.Expr) and isinstance(st.value, ast.Constant)
+                                        and isinstance(st.value.value, str))
+
+
+def _expand(value, env) -> List[Tuple[Optional[ast.AST], ast.AST]]:
+    """a conditional expression is the same decision list as the if/else statement"""
+    if isinstance(value, ast.IfExp):
+        if isinstance(value.body, ast.IfExp):
+            _unsupported("q: conditional expression nested in the true arm")
+        return [(subst(value.test, env), subst(value.body, env))] + _expand(value.orelse, env)
+    return [(None, subst(value, env))]
+
+
+def _unsupported(msg):
+    raise TranslationError(msg)
+
+
+def decision_list(stmts, mode: str, acc: Optional[str], env: Dict[str, ast.AST], bound: set):
+    """Normal form of a per-character case analysis: [(test, piece), ..., (None, piece)] — the first test that
+    holds selects the piece. Accepts if/elif/else chains, early exits (`return` in a helper, `append` +
+    `continue` in a loop body) followed by the remaining cases, conditional expressions, and pure
+    sub-expressions hoisted into locals (bound once; substituted back)."""
+    env = dict(env)
+    for i, st in enumerate(stmts):
+        if _is_doc(st):
+            continue
+        if isinstance(st, (ast.Assign, ast.AnnAssign)):
+            tgt = st.targets[0] if isinstance(st, ast.Assign) and len(st.targets) == 1 else getattr(st, "target", None)
+            if not isinstance(tgt, ast.Name) or st.value is None or tgt.id in bound:
+                _unsupported(f"q: unsupported assignment {ast.unparse(st)}")
+            bound.add(tgt.id)
+            env[tgt.id] = subst(st.value, env)
+            continue
+        leaf = None
+        if mode == "return" and isinstance(st, ast.Return) and st.value is not None:
+            leaf, rest = st.value, []
+        elif mode == "append" and isinstance(st, ast.Expr) and isinstance(st.value, ast.Call) \
+                and same(st.value.func, f"{acc}.append") and len(st.value.args) == 1 and not st.value.keywords:
+            leaf, rest = st.value.args[0], stmts[i + 1:]
+            if rest and isinstance(rest[0], ast.Continue):
+                rest = []
+        if leaf is not None:
+            if [x for x in rest if not _is_doc(x)]:
+                _unsupported("q: statements after the piece of a case")
+            return _expand(leaf, env)
+        if isinstance(st, ast.If):
+            then = decision_list(st.body, mode, acc, env, bound)
+            if len(then) != 1:
+                _unsupported("q: case analysis nested inside a case")
+            terminated = mode == "return" or (st.body and isinstance(st.body[-1], ast.Continue))
+            if st.orelse:
+                if [x for x in stmts[i + 1:] if not _is_doc(x)]:
+                    _unsupported("q: statements after an if/else")
+                rest_list = decision_list(st.orelse, mode, acc, env, bound)
+            else:
+                if not terminated:
+                    _unsupported("q: a case without else that falls through")
+                rest_list = decision_list(stmts[i + 1:], mode, acc, env, bound)
+            return [(subst(st.test, env), then[0][1])] + rest_list
+        _unsupported(f"q: unsupported statement in the per-character case analysis: {ast.unparse(st)[:80]}")
+    _unsupported("q: a path through the per-character case analysis yields no piece")
+
+
+def _ord_of(e, var: str) -> bool:
+    return same(e, f"ord({var})")
+
+
+def _ctl_test(t, var: str) -> Tuple[int, int]:
+    """`ord(c) < A or ord(c) == B` in any spelling that means the same: disjuncts in either order, constant on
+    either side, `<=`/`>=` against the neighbouring integer, the character compared with a one-character string"""
+    if not (isinstance(t, ast.BoolOp) and isinstance(t.op, ast.Or) and len(t.values) == 2):
+        _unsupported(f"q: control-character test has an unexpected shape: {ast.unparse(t)}")
+    below = also = None
+    for c in t.values:
+        if not (isinstance(c, ast.Compare) and len(c.ops) == 1):
+            _unsupported(f"q: control-character test has an unexpected shape: {ast.unparse(t)}")
+        l, op, r = c.left, c.ops[0], c.comparators[0]
+        flip = {ast.Lt: ast.Gt, ast.Gt: ast.Lt, ast.LtE: ast.GtE, ast.GtE: ast.LtE, ast.Eq: ast.Eq}
+
+        def const(e, other):
+            if isinstance(e, ast.Constant) and isinstance(e.value, int) and not isinstance(e.value, bool) and _ord_of(other, var):
+                return e.value
+            if isinstance(e, ast.Constant) and isinstance(e.value, str) and len(e.value) == 1 \
+                    and isinstance(other, ast.Name) and other.id == var:
+                return ord(e.value)
+            return None
+        k, opt = const(r, l), type(op)
+        if k is None:
+            k, opt = const(l, r), flip.get(type(op))
+        if k is None or opt is None:
+            _unsupported(f"q: control-character test has an unexpected shape: {ast.unparse(t)}")
+        if opt is ast.Lt and below is None:
+            below = k
+        elif opt is ast.LtE and below is None:
+            below = k + 1
+        elif opt is ast.Eq and also is None:
+            also = k
+        else:
+            _unsupported(f"q: control-character test has an unexpected shape: {ast.unparse(t)}")
+    if below is None or also is None:
+        _unsupported(f"q: control-character test has an unexpected shape: {ast.unparse(t)}")
+    return below, also
+
+
+def _is_hex_escape(e, var: str) -> bool:
+    r"""`\xNN` of the character's code, two lower-case hex digits: f-string, %-format or str.format"""
+    return any(same(e, src % {"v": var}) for src in (
+        'f"\\\\x{ord(%(v)s):02x}"', '"\\\\x%%02x" %% ord(%(v)s)', '"\\\\x%%02x" %% (ord(%(v)s),)',
+        '"\\\\x{:02x}".format(ord(%(v)s))', '"\\\\x{0:02x}".format(ord(%(v)s))',
+        '"\\\\x" + format(ord(%(v)s), "02x")', '"\\\\x" + "%%02x" %% ord(%(v)s)'))
+
+
+def _rename(node, old: str, new: str):
+    return subst(node, {old: ast.Name(id=new, ctx=ast.Load())})
+
+
 def q_data(fn: ast.FunctionDef) -> Dict[str, str]:
-    """the `escapes` dict (constant keys; the `quote` entry separately) and the control-character test"""
-    # local names are read off the code (a renamed local is not a change of behaviour):
-    # the dict literal assigned once, the list the loop appends to
-    dicts = [st for st in fn.body if isinstance(st, ast.Assign) and len(st.targets) == 1
-             and isinstance(st.targets[0], ast.Name) and isinstance(st.value, ast.Dict)]
-    lists = [st for st in fn.body if isinstance(st, ast.Assign) and len(st.targets) == 1
-             and isinstance(st.targets[0], ast.Name) and isinstance(st.value, ast.List) and not st.value.elts]
-    if len(dicts) != 1 or len(lists) != 1:
-        raise TranslationError("q: expected one dict literal (escapes) and one empty list (pieces)")
-    esc, escn, bodyn = dicts[0].value, dicts[0].targets[0].id, lists[0].targets[0].id
-    quote_param = fn.args.args[1].arg
+    """The data of `q`: the `escapes` dict (constant keys; the `quote` entry separately) and the
+    control-character test, read off a NORMAL FORM of the function — so that the same per-character case
+    analysis is recognised whether it is a loop appending to a list, a nested helper / lambda with early
+    returns applied by a comprehension or `map`, or a conditional expression inside the comprehension; with
+    locals renamed, sub-expressions hoisted, dict entries reordered. Every statement of the function has
+    to be accounted for: anything else is a TranslationError (the check then treats the bridge as broken)."""
+    if len(fn.args.args) != 2 or fn.args.vararg or fn.args.kwarg or fn.args.kwonlyargs:
+        _unsupported("q: expected the two parameters (text, quote)")
+    text_p, quote_p = fn.args.args[0].arg, fn.args.args[1].arg
+    bound = {text_p, quote_p}
+    env: Dict[str, ast.AST] = {}
+    esc = None          # (name, ast.Dict)
+    acc = None          # the list a loop appends to
+    helpers: Dict[str, Tuple[str, list]] = {}   # name -> (parameter, raw body / expression)
+    loop = None
+    final = None
+    none_guard = False
+    quote2 = (f'f"{{{quote_p}}}{{{quote_p}}}"', f"{quote_p} + {quote_p}", f"{quote_p} * 2", f"2 * {quote_p}")
+    for st in fn.body:
+        if _is_doc(st):
+            continue
+        if final is not None:
+            _unsupported("q: statements after the return")
+        if isinstance(st, ast.If) and (same(st.test, f"{text_p} is None") or same(st.test, f"None is {text_p}")) \
+                and not st.orelse and len(st.body) == 1 and isinstance(st.body[0], ast.Return) \
+                and any(same(st.body[0].value, x) for x in quote2) and esc is None and loop is None:
+            none_guard = True
+            continue
+        if isinstance(st, ast.FunctionDef) and len(st.args.args) == 1 and not st.decorator_list \
+                and not (st.args.vararg or st.args.kwarg or st.args.kwonlyargs or st.args.defaults) and st.name not in bound:
+            bound.add(st.name)
+            helpers[st.name] = (st.args.args[0].arg, st.body)
+            continue
+        if isinstance(st, (ast.Assign, ast.AnnAssign)):
+            tgt = st.targets[0] if isinstance(st, ast.Assign) and len(st.targets) == 1 else getattr(st, "target", None)
+            if not isinstance(tgt, ast.Name) or st.value is None or tgt.id in bound:
+                _unsupported(f"q: unsupported assignment {ast.unparse(st)[:80]}")
+            bound.add(tgt.id)
+            v = st.value
+            if isinstance(v, ast.Dict) and esc is None:
+                esc = (tgt.id, v)
+            elif isinstance(v, ast.List) and not v.elts and acc is None:
+                acc = tgt.id
+            elif isinstance(v, ast.Lambda) and len(v.args.args) == 1 and not v.args.defaults:
+                helpers[tgt.id] = (v.args.args[0].arg, [ast.Return(value=v.body)])
+            else:
+                env[tgt.id] = subst(v, env)
+            continue
+        if isinstance(st, ast.For) and loop is None and isinstance(st.target, ast.Name) and same(st.iter, text_p) \
+                and not st.orelse and acc is not None and st.target.id not in bound:
+            loop = (st.target.id, st.body)
+            continue
+        if isinstance(st, ast.Return) and st.value is not None:
+            final = subst(st.value, env)
+            continue
+        _unsupported(f"q: unsupported statement {ast.unparse(st)[:80]}")
+    if esc is None or final is None:
+        _unsupported("q: expected one dict literal (escapes) and a return")
+    escn, escd = esc
+    # ---- the result: quote + ''.join(pieces) + quote ------------------------------------------------
+    JOIN = "__JOIN__"
+
+    def joined(e):
+        if isinstance(e, ast.Call) and isinstance(e.func, ast.Attribute) and e.func.attr == "join" \
+                and isinstance(e.func.value, ast.Constant) and e.func.value.value == "" and len(e.args) == 1 and not e.keywords:
+            return e.args[0]
+        return None
+    pieces = None
+    if isinstance(final, ast.JoinedStr) and len(final.values) == 3 and all(
+            isinstance(x, ast.FormattedValue) and x.conversion == -1 and x.format_spec is None for x in final.values):
+        parts = [x.value for x in final.values]
+    elif isinstance(final, ast.BinOp) and isinstance(final.op, ast.Add) and isinstance(final.left, ast.BinOp) \
+            and isinstance(final.left.op, ast.Add):
+        parts = [final.left.left, final.left.right, final.right]
+    elif isinstance(final, ast.BinOp) and isinstance(final.op, ast.Add) and isinstance(final.right, ast.BinOp) \
+            and isinstance(final.right.op, ast.Add):
+        parts = [final.left, final.right.left, final.right.right]     # str + is associative
+    else:
+        parts = []
+    if len(parts) == 3 and same(parts[0], quote_p) and same(parts[2], quote_p):
+        pieces = joined(parts[1])
+    if pieces is None:
+        _unsupported(f"q: return is not quote + ''.join(pieces) + quote: {ast.unparse(final)[:100]}")
+    # ---- the per-character case analysis ---------------------------------------------------------------
+    VAR = "__c__"
+    if isinstance(pieces, ast.Name) and pieces.id == acc and loop is not None:
+        var, body = loop
+        chain = decision_list(body, "append", acc, {}, set(bound) | {var})
+    else:
+        if loop is not None:
+            _unsupported("q: a loop whose list is not what is joined")
+        if isinstance(pieces, (ast.ListComp, ast.GeneratorExp)) and len(pieces.generators) == 1 \
+                and not pieces.generators[0].ifs and not pieces.generators[0].is_async \
+                and isinstance(pieces.generators[0].target, ast.Name) and same(pieces.generators[0].iter, text_p):
+            var, elt = pieces.generators[0].target.id, pieces.elt
+        elif isinstance(pieces, ast.Call) and same(pieces.func, "map") and len(pieces.args) == 2 \
+                and isinstance(pieces.args[0], ast.Name) and same(pieces.args[1], text_p):
+            var, elt = VAR, ast.Call(func=pieces.args[0], args=[ast.Name(id=VAR, ctx=ast.Load())], keywords=[])
+        else:
+            _unsupported(f"q: the joined pieces are neither the loop's list nor a comprehension over the text: {ast.unparse(pieces)[:100]}")
+        if isinstance(elt, ast.Call) and isinstance(elt.func, ast.Name) and elt.func.id in helpers \
+                and len(elt.args) == 1 and same(elt.args[0], var) and not elt.keywords:
+            hp, hbody = helpers.pop(elt.func.id)            # one level of inlining: helper(c)
+            chain = decision_list(hbody, "return", None, {}, set(bound) | {hp})
+            chain = [(None if t is None else _rename(t, hp, var), _rename(p, hp, var)) for t, p in chain]
+        else:
+            chain = _expand(elt, {})
+    if helpers:
+        _unsupported(f"q: helper(s) {sorted(helpers)} defined but not applied to the characters of the text")
+    chain = [(None if t is None else _rename(t, var, VAR), _rename(p, var, VAR)) for t, p in chain]
+    if len(chain) != 3 or chain[2][0] is not None:
+        _unsupported(f"q: expected three cases (escapes lookup, control character, copy), found {len(chain)}")
+    (t0, p0), (t1, p1), (_, p2) = chain
+    if not (same(t0, f"{VAR} in {escn}") or same(t0, f"{VAR} in {escn}.keys()")) or not same(p0, f"{escn}[{VAR}]"):
+        _unsupported("q: first case is not the escapes lookup")
+    below, also = _ctl_test(t1, VAR)
+    if not _is_hex_escape(p1, VAR):
+        _unsupported(f"q: control characters are not written as \\xNN: {ast.unparse(p1)}")
+    if not same(p2, VAR):
+        _unsupported("q: last case does not copy the character")
+    # ---- the escapes dict: a lookup table, so the order of its (distinct) keys does not matter ----------
     consts, has_quote = [], False
-    for k, v in zip(esc.keys, esc.values):
+    for k, v in zip(escd.keys, escd.values):
         if isinstance(k, ast.Constant) and isinstance(k.value, str) and len(k.value) == 1 \
                 and isinstance(v, ast.Constant) and isinstance(v.value, str):
+            if k.value in "\"'":
+                _unsupported("q: a quote character as a constant key of escapes (would collide with the quote entry)")
             consts.append((k.value, v.value))
-        elif isinstance(k, ast.Name) and k.id == quote_param and same(v, 'f"\\\\{%s}"' % quote_param):
+        elif isinstance(k, ast.Name) and k.id == quote_p and not has_quote and (
+                same(v, 'f"\\\\{%s}"' % quote_p) or same(v, '"\\\\" + %s' % quote_p)):
             has_quote = True
         else:
-            raise TranslationError(f"q: unsupported escapes entry {ast.unparse(k)}: {ast.unparse(v)}")
-    # the loop: if c in escapes / elif ord(c) < A or ord(c) == B / else
-    loops = [st for st in fn.body if isinstance(st, ast.For)]
-    if len(loops) != 1:
-        raise TranslationError("q: expected exactly one for-loop over the text")
-    loop = loops[0]
-    var = loop.target.id if isinstance(loop.target, ast.Name) else None
-    if var is None or len(loop.body) != 1 or not isinstance(loop.body[0], ast.If):
-        raise TranslationError("q: loop body is not a single if/elif/else")
-    if1 = loop.body[0]
-    if not same(if1.test, f"{var} in {escn}") or len(if1.body) != 1 or not same(if1.body[0], f"{bodyn}.append({escn}[{var}])"):
-        raise TranslationError("q: first branch is not the escapes lookup")
-    if len(if1.orelse) != 1 or not isinstance(if1.orelse[0], ast.If):
-        raise TranslationError("q: missing control-character branch")
-    if2 = if1.orelse[0]
-    t = if2.test
-    ok = (isinstance(t, ast.BoolOp) and isinstance(t.op, ast.Or) and len(t.values) == 2
-          and all(isinstance(c, ast.Compare) and same(c.left, f"ord({var})") and len(c.ops) == 1
-                  and isinstance(c.comparators[0], ast.Constant) and isinstance(c.comparators[0].value, int) for c in t.values)
-          and isinstance(t.values[0].ops[0], ast.Lt) and isinstance(t.values[1].ops[0], ast.Eq))
-    if not ok:
-        raise TranslationError(f"q: control-character test has an unexpected shape: {ast.unparse(t)}")
-    below, also = t.values[0].comparators[0].value, t.values[1].comparators[0].value
-    if len(if2.body) != 1 or not same(if2.body[0], '%s.append(f"\\\\x{ord(%s):02x}")' % (bodyn, var)):
-        raise TranslationError(f"q: control characters are not written as \\xNN: {ast.unparse(if2.body[0])}")
-    if len(if2.orelse) != 1 or not same(if2.orelse[0], f"{bodyn}.append({var})"):
-        raise TranslationError("q: last branch does not copy the character")
-    rets = [st for st in fn.body if isinstance(st, ast.Return)]
-    if not rets or not same(rets[-1].value, "f\"{%s}{''.join(%s)}{%s}\"" % (quote_param, bodyn, quote_param)):
-        raise TranslationError("q: return is not quote + body + quote")
+            _unsupported(f"q: unsupported escapes entry {ast.unparse(k)}: {ast.unparse(v)}")
+    if len({k for k, _ in consts}) != len(consts):
+        _unsupported("q: duplicate keys in escapes")
+    consts.sort(key=lambda kv: -ord(kv[0]))
     return {
         "qEscapes": "[" + ", ".join(f"({lean_char(k)}, {lean_str(v)})" for k, v in consts) + "]",
         "qEscapesQuote": "true" if has_quote else "false",
         "qCtlBelow": str(below), "qCtlAlso": str(also),
+        "qNoneGuard": "true" if none_guard else "false",
     }
 
 
